@@ -2,7 +2,7 @@
    preservation by releases and by allocations produced by the allocator. *)
 From Coq Require Import List ZArith Bool Arith Lia Permutation.
 From Verif Require Import C07.Model C07.Spec C07.Proofs_Res C07.Proofs_Ledger C07.Proofs_View
-  C07.Proofs_Alloc C07.Proofs_Allocate C07.Proofs_State.
+  C07.Proofs_Alloc C07.Proofs_Allocate C07.Proofs_Desig C07.Proofs_AllocateR C07.Proofs_State.
 Import ListNotations.
 Open Scope Z_scope.
 
@@ -154,7 +154,7 @@ Section AddAllocated.
   Hypothesis N : no_overcommit l.
   Hypothesis Hper : res_nonneg per = true.
   Hypothesis ND : NoDup (map fst al).
-  Hypothesis Hall : forall a, In a al -> ledger_ok true l minors per (fst a) /\ granted t (total l) per a.
+  Hypothesis Hall : forall a, In a al -> ledger_okx true l minors per (fst a) /\ granted t (total l) per a.
   Hypothesis Hp : aset_mem p (aset l) = false.
   Let l' := ledger_add l p al.
 
@@ -173,8 +173,7 @@ Section AddAllocated.
     destruct (asum_cases al m k ND) as [-> | [a [Ha [Em ->]]]]; [lia|].
     rewrite (Hk a Ha). destruct (Hall a Ha) as [[_ [f [Ef [R _]]]] _]. specialize (R eq_refl). rewrite Em in *.
     unfold rval. destruct (rget per k) as [v|] eqn:Ev; cbn [oz]; [|lia].
-    pose proof (view_free_rle_exposed l (lg_fs _ G) (lg_tot _ G) (lgood_used_nonneg _ G)
-                  m f Ef per k T v R E Ev) as Hv.
+    pose proof (R k T v E Ev) as Hv.
     pose proof (lgood_free_eq l G m k) as Fe. unfold dval at 1 in Fe. rewrite Ef in Fe. cbn [ores] in Fe.
     assert (dval (total l) m k = T) by (unfold dval, rval; now rewrite E). lia.
   Qed.
